@@ -12,6 +12,7 @@ import (
 	"github.com/opsidian/parsley/parsley"
 
 	"verifharness/internal/gram"
+	"verifharness/internal/run"
 )
 
 // attempt is one logged try of a terminal, of End, or of a named alternative
@@ -42,6 +43,9 @@ type sentenceOpts struct {
 	// prefix, the way a loader scans a file for include statements), then the parse that is judged. The second parse is
 	// served from the context's result cache; what the first one learned about failures must not get lost
 	Prescan bool
+	// Transform: the context has transformation switched on (the harness interpreters are no transformers: the tree
+	// comes back as it is, through the library's default child-by-child pass)
+	Transform bool
 	// SharedSet: the file joins this file set, which already holds the inputs parsed (and the errors rendered) before
 	SharedSet *parsley.FileSet
 }
@@ -108,7 +112,22 @@ func runSentence(c GCase, o sentenceOpts) *sentenceResult {
 	gd := gram.NewGuard(env.Base)
 	gd.MaxEvents, gd.MaxCalls = 100000, 150000
 	res.Guard = gd
-	h := &gram.Hooks{Inside: gd.Inside, Outside: gd.Outside, NoMemo: o.NoMemo, Interp: concatInterp(), ShareLeaves: true}
+	h := &gram.Hooks{Inside: gd.Inside, Outside: gd.Outside, NoMemo: o.NoMemo, Interp: concatInterp(), ShareLeaves: true,
+		// grammars with trimming wrappers (judged on acceptance and errors, not on the tree's node types): a quarter with
+		// hand-written terminals that return a node type of the user's own
+		UserLeaves: c.G.HasExtendedOps() && run.Hash(c.G.String())%4 == 2}
+	if h.UserLeaves && run.Hash(c.G.String())%8 == 2 {
+		// ... half of these with a non-comparable value node (only where no RightTrim has to move a node's end)
+		hasRTrim := false
+		for _, b := range c.G.NTs {
+			gram.Walk(b, func(e *gram.Expr) {
+				if e.Op == gram.OpRTrim {
+					hasRTrim = true
+				}
+			})
+		}
+		h.UserValueLeaves = !hasRTrim
+	}
 	if !o.NoMemo {
 		h.MemoExpr = c.MemoExpr
 	}
@@ -202,6 +221,9 @@ func runSentence(c GCase, o sentenceOpts) *sentenceResult {
 		}()
 		if o.Prescan {
 			parsley.Parse(env.Ctx, rootProbe)
+		}
+		if o.Transform {
+			env.Ctx.EnableTransformation()
 		}
 		if o.Evaluate {
 			res.Value, res.Err = parsley.Evaluate(env.Ctx, root)
